@@ -53,6 +53,9 @@ type mcase struct {
 	Sanity bool `json:"sanity,omitempty"`
 	// Then: the requests the SAME server process serves after Req, in order (see follow).
 	Then []follow `json:"then,omitempty"`
+	// Grid: the case is a BATCH of independent read requests of the filter grid (see
+	// c38grid.go), served one after the other by one process; Req is unused.
+	Grid []gridReq `json:"grid,omitempty"`
 }
 
 // follow is one request served by the same process (same Env: same Go object graph, same
@@ -339,6 +342,9 @@ func casesOf(s *Seed, seedResp Resp, thorough bool) ([]mcase, error) {
 			for i, d := range l {
 				if m, ok := d.(map[string]any); ok {
 					ty, _ := m["type"].(string)
+					if s.JSONStream {
+						ty, _ = m["action"].(string)
+					}
 					if _, seen := first[ty]; !seen {
 						first[ty] = i
 					}
@@ -358,12 +364,26 @@ func casesOf(s *Seed, seedResp Resp, thorough bool) ([]mcase, error) {
 	base := s.Req
 
 	// 1. JSON body
-	if base.Body != "" {
+	if s.TextStream {
+		out = append(out, textStreamCases(s)...)
+		out = append(out, streamContentTypeCases(s)...)
+	}
+	if s.JSONStream {
+		out = append(out, jsonStreamCases(s)...)
+		out = append(out, streamContentTypeCases(s)...)
+	}
+	if base.Body != "" && !s.TextStream {
 		tree, ok := parseBody(base.Body, s.NDJSON)
 		if !ok {
 			return nil, fmt.Errorf("seed body is not JSON")
 		}
-		out = append(out, jsonCases(s, tree, s.NDJSON, "body:", func(b string) Req { return base.withBody(b) }, s.MustReject, s.Values, s.RawValues, true, keepDoc)...)
+		// a streamed bulk reports a document it cannot decode in the envelope of a 200: in doubt
+		out = append(out, jsonCases(s, tree, s.NDJSON, "body:", func(b string) Req { return base.withBody(b) }, s.MustReject, s.Values, s.RawValues, !s.JSONStream, keepDoc)...)
+	}
+
+	if s.Route == importRoute && s.NDJSON && !s.JSONStream {
+		out = append(out, rechainedVariants(out)...)
+		out = append(out, importCrossCases(s, thorough)...)
 	}
 
 	// 2. query parameters
@@ -458,6 +478,7 @@ func casesOf(s *Seed, seedResp Resp, thorough bool) ([]mcase, error) {
 		// tampered cursors: every field of the decoded cursor x menu (in doubt: a cursor is
 		// opaque, a tampered one may still be acceptable; only 5xx/panic/malformed count)
 		out = append(out, jsonCases(s, tree, false, "cursor-json:", func(b string) Req { return setCursor(b64(b)) }, nil, nil, nil, false, nil)...)
+		out = append(out, cursorEmptyCases(s, tree, setCursor)...)
 	}
 
 	// 5. body-level damage
@@ -466,7 +487,9 @@ func casesOf(s *Seed, seedResp Resp, thorough bool) ([]mcase, error) {
 	}
 	if base.Body != "" {
 		cut := base.Body[:len(base.Body)*2/3]
-		if !jsonOK(cut) {
+		if s.TextStream {
+			add(mcase{Loc: "body", Repl: "truncated-text", Req: base.withBody(cut)})
+		} else if !jsonOK(cut) {
 			add(mcase{Loc: "body", Repl: "truncated-json", Must: s.BodyParsed, Req: base.withBody(cut)})
 		}
 		add(mcase{Loc: "body", Repl: "not-json", Must: s.BodyParsed, Req: base.withBody("not json")})
@@ -584,6 +607,8 @@ func statusClass(st int) string { return fmt.Sprintf("%dxx", st/100) }
 type c38plan struct {
 	ctx   *c38ctx
 	cases []mcase
+	// gridPer: requests of the filter grid per route variant (they travel in batches)
+	gridPer map[string]int
 	// scriptCacheLive: in the explored stack, parsing one script twice gives the SAME
 	// compiled program, under both runtimes (the production cache is wired in).
 	scriptCacheLive bool
@@ -639,7 +664,12 @@ func planC38(thorough bool) (*c38plan, error) {
 		}
 		cases = append(cases, cs...)
 	}
-	return &c38plan{ctx: c, cases: cases, scriptCacheLive: cacheLive}, nil
+	grid, gridPer, err := gridCases(c.boot, thorough)
+	if err != nil {
+		return nil, err
+	}
+	cases = append(cases, grid...)
+	return &c38plan{ctx: c, cases: cases, gridPer: gridPer, scriptCacheLive: cacheLive}, nil
 }
 
 var c38Boot = map[string]any{"ledgers": c38Ledgers, "history": c38History}
@@ -779,9 +809,19 @@ type sentReq struct {
 // preliminary requests, the mutated request, then its follow-ups — and classifies the
 // outcome of every request served.
 func execC38(boot *pgsim.DB, c *mcase) caseResult {
-	res := caseResult{Counts: map[string]int64{}}
+	if len(c.Grid) > 0 {
+		return execGrid(boot, c)
+	}
 	e := NewEnv(boot.Clone())
 	defer e.Close()
+	return execOn(boot, e, c, nil)
+}
+
+// execOn runs one case on a live environment. dumps, when set, says how the "database
+// unchanged" half of the oracle is evaluated for a batch of requests (see dumpChain); nil:
+// the database is dumped before and after every request.
+func execOn(boot *pgsim.DB, e *Env, c *mcase, dumps *dumpChain) caseResult {
+	res := caseResult{Counts: map[string]int64{}}
 	for _, p := range c.Pre {
 		resp, ok := e.Do(p)
 		if !ok || resp.Status < 200 || resp.Status >= 300 {
@@ -802,7 +842,7 @@ func execC38(boot *pgsim.DB, c *mcase) caseResult {
 			label = fk
 		}
 		reportStep(label + ": " + req.Method + " " + req.Path)
-		before := e.Dump()
+		before := dumps.before(e)
 		resp, ok := e.Do(req)
 		if !ok {
 			if first {
@@ -810,7 +850,7 @@ func execC38(boot *pgsim.DB, c *mcase) caseResult {
 			}
 			return resp, false, false
 		}
-		changed := e.Dump() != before
+		changed := dumps.after(e) != before
 		history := append([]sentReq(nil), sent...)
 		sent = append(sent, sentReq{Kind: label, Req: req, Status: resp.Status})
 		desc := func(msg string) string {
@@ -899,6 +939,16 @@ func execC38(boot *pgsim.DB, c *mcase) caseResult {
 				res.Counts["must"]++
 			}
 			res.Counts["seed:"+c.Seed.id()]++
+			if kind == "filter-grid" {
+				res.Counts["loc:"+c.Loc[len("filter-grid:"):]]++
+				res.Counts["route:"+c.Seed.id()+":"+cls]++
+			}
+			if kind == "body-rechained" && accepted {
+				res.Counts["rechained_accepted"]++
+			}
+			if kind == "cursor-empty" && accepted && emptyPage(resp.Body) {
+				res.Counts["empty_page_2xx"]++
+			}
 			if sanity {
 				res.Counts["sanity"]++
 			}
@@ -1095,65 +1145,101 @@ func runC38(r *ev.Run) (ev.Coverage, []string) {
 	samples := ev.NewSamples(6)
 	var evals int64
 	deadline := time.Now().Add(budgetOf(r, c38Quick, c38Thorough) - r.Elapsed())
-	exhaustive, err := runIsolated("C38", len(p.cases), func(i int) []byte {
-		b, _ := json.Marshal(&p.cases[i])
-		return b
-	}, deadline, 120*time.Second, func(res caseResult) {
-		evals++
-		c := &p.cases[res.I]
-		if res.Crashed {
-			outcome, msg := "process-crash", "the server PROCESS died while serving the request (panic outside every recover): "
-			if res.Extra["hung"] != "" {
-				outcome, msg = "no-response", "no response: "
+	// rounds: a batch of the filter grid whose process died is queued again without the
+	// request that was in flight (the results of the others died with the process)
+	planned := len(p.cases)
+	cur := p.cases
+	exhaustive := true
+	for len(cur) > 0 {
+		var requeue []mcase
+		ex, err := runIsolated("C38", len(cur), func(i int) []byte {
+			b, _ := json.Marshal(&cur[i])
+			return b
+		}, deadline, 120*time.Second, func(res caseResult) {
+			evals++
+			c := &cur[res.I]
+			if res.Crashed && len(c.Grid) > 0 {
+				counts["grid:batches_crashed"]++
+				k, ok := gridCrashIndex(res.Extra["step"])
+				if !ok {
+					r.EngineError(fmt.Sprintf("a filter-grid batch died and the request in flight is unknown: %s %s: %s", c.Seed.id(), c.Repl, res.Stderr))
+					return
+				}
+				g := c.Grid[k]
+				rest := *c
+				rest.Grid = append(append([]gridReq(nil), c.Grid[:k]...), c.Grid[k+1:]...)
+				rest.Repl += fmt.Sprintf(" minus #%d", k)
+				if len(rest.Grid) > 0 {
+					requeue = append(requeue, rest)
+				}
+				// what follows reports the request in flight as a case of its own
+				c = &mcase{Seed: c.Seed, Loc: g.Loc, Repl: g.Repl, Req: g.Req, Must: g.Must}
+				counts["grid:requests"]++
 			}
-			sg := c38sig(c, outcome, siteOf(res.Stderr))
-			what := fmt.Sprintf("%s%s — seed %s, mutation %s=%s; request: %s", msg, res.Stderr, c.Seed.id(), c.Loc, c.Repl, c.Req)
-			if st := res.Extra["step"]; st != "" {
-				// a case is a sequence of requests served by one process: which one was in flight
-				what += "; in flight when the process died: " + st
+			if res.Crashed {
+				outcome, msg := "process-crash", "the server PROCESS died while serving the request (panic outside every recover): "
+				if res.Extra["hung"] != "" {
+					outcome, msg = "no-response", "no response: "
+				}
+				sg := c38sig(c, outcome, siteOf(res.Stderr))
+				what := fmt.Sprintf("%s%s — seed %s, mutation %s=%s; request: %s", msg, res.Stderr, c.Seed.id(), c.Loc, c.Repl, c.Req)
+				if st := res.Extra["step"]; st != "" {
+					// a case is a sequence of requests served by one process: which one was in flight
+					what += "; in flight when the process died: " + st
+				}
+				if c38Trace != nil {
+					c38Trace(sg, c, what)
+				}
+				distinct[c.Req.key()] = true
+				counts["status:crash"]++
+				r.Violation(sg, what, c38replay(c, nil))
+				return
 			}
-			if c38Trace != nil {
-				c38Trace(sg, c, what)
+			if res.Engine != "" {
+				r.EngineError(res.Engine)
+				return
 			}
-			distinct[c.Req.key()] = true
-			counts["status:crash"]++
-			r.Violation(sg, what, c38replay(c, nil))
-			return
-		}
-		if res.Engine != "" {
-			r.EngineError(res.Engine)
-			return
-		}
-		if m := res.Extra["inconclusive"]; m != "" {
-			key := c.Seed.API + ":" + c.Seed.Route + ":" + locKind(c.Loc)
-			if !inconclusiveSeen[key] {
-				inconclusiveSeen[key] = true
-				r.Note("inconclusive (" + key + "): " + m)
+			if m := res.Extra["inconclusive"]; m != "" {
+				key := c.Seed.API + ":" + c.Seed.Route + ":" + locKind(c.Loc)
+				if !inconclusiveSeen[key] {
+					inconclusiveSeen[key] = true
+					r.Note("inconclusive (" + key + "): " + m)
+				}
 			}
-		}
-		for k, v := range res.Counts {
-			counts[k] += v
-		}
-		if res.Key != "" {
-			distinct[res.Key] = true
-		}
-		if res.Sample != nil {
-			samples.Add(res.Sample)
-		}
-		for _, v := range res.Viol {
-			if c38Trace != nil {
-				c38Trace(v.Sig, c, v.What)
+			for k, v := range res.Counts {
+				counts[k] += v
 			}
-			r.Violation(v.Sig, v.What, v.Replay)
+			if res.Key != "" {
+				distinct[res.Key] = true
+			}
+			for _, k := range res.Keys {
+				distinct[k] = true
+			}
+			if res.Sample != nil {
+				samples.Add(res.Sample)
+			}
+			for _, v := range res.Viol {
+				if c38Trace != nil {
+					c38Trace(v.Sig, c, v.What)
+				}
+				r.Violation(v.Sig, v.What, v.Replay)
+			}
+		})
+		if err != nil {
+			r.EngineError("isolation: " + err.Error())
+			break
 		}
-	})
-	if err != nil {
-		r.EngineError("isolation: " + err.Error())
+		if !ex {
+			exhaustive = false
+			break
+		}
+		planned += len(requeue)
+		cur = requeue
 	}
 	// Vacuity guards (whatever the violations, known or not: they are about what RAN).
 	if exhaustive && !r.HasEngineError() {
-		if int(evals) != len(p.cases) {
-			r.EngineError(fmt.Sprintf("vacuous: %d cases planned, %d results collected", len(p.cases), evals))
+		if int(evals) != planned {
+			r.EngineError(fmt.Sprintf("vacuous: %d cases planned, %d results collected", planned, evals))
 		}
 		if counts["rejected"] == 0 || counts["accepted"] == 0 || counts["must_rejected"] == 0 || counts["sanity_ok"] == 0 {
 			r.EngineError(fmt.Sprintf("vacuous: rejected=%d accepted=%d must-rejected=%d sanity-ok=%d", counts["rejected"], counts["accepted"], counts["must_rejected"], counts["sanity_ok"]))
@@ -1176,7 +1262,7 @@ func runC38(r *ev.Run) (ev.Coverage, []string) {
 		// refused BY THE SCRIPT PARSER were repeated, under both runtimes (the compiled-script
 		// cache — the one cross-request memory of the write path — was consulted for a script
 		// it had refused); every re-routing was exercised and met a refusal
-		answered := evals - counts["not_constructible"] - counts["inconclusive"] - counts["status:crash"]
+		answered := evals - counts["grid:batches"] - counts["not_constructible"] - counts["inconclusive"] - counts["status:crash"]
 		if got := counts["follow:"+fRepeat] + counts["inconclusive_follow_up"] + counts["blocked_for_ever"]; got < answered || counts["follow:"+fRepeat] == 0 {
 			r.EngineError(fmt.Sprintf("vacuous: %d answered cases, %d repeated to the same process", answered, counts["follow:"+fRepeat]))
 		}
@@ -1201,6 +1287,38 @@ func runC38(r *ev.Run) (ev.Coverage, []string) {
 		if counts["sanity"] != counts["sanity_ok"] {
 			r.EngineError(fmt.Sprintf("vacuous: %d sanity cases, %d accepted", counts["sanity"], counts["sanity_ok"]))
 		}
+		// the filter grid: every planned request was judged; on every route variant the grid
+		// met both the validation (4xx) and the SQL it guards (2xx), otherwise it only
+		// exercised the front door of the route
+		var gridPlanned int64
+		for _, id := range sortedInts(p.gridPer) {
+			gridPlanned += int64(p.gridPer[id])
+			if a, b := counts["grid:route:"+id+":2xx"], counts["grid:route:"+id+":4xx"]; a == 0 || b == 0 {
+				r.EngineError(fmt.Sprintf("vacuous: filter grid of %s: %d requests planned, %d answered 2xx, %d answered 4xx", id, p.gridPer[id], a, b))
+			}
+		}
+		if counts["grid:requests"] != gridPlanned {
+			r.EngineError(fmt.Sprintf("vacuous: filter grid: %d requests planned, %d judged", gridPlanned, counts["grid:requests"]))
+		}
+		if counts["grid:rejected"] == 0 || counts["grid:accepted"] == 0 || counts["grid:must_rejected"] == 0 {
+			r.EngineError(fmt.Sprintf("vacuous: filter grid: rejected=%d accepted=%d must-rejected=%d", counts["grid:rejected"], counts["grid:accepted"], counts["grid:must_rejected"]))
+		}
+		// the empty pages: some tampered cursor must have been answered 2xx with an empty page
+		if counts["empty_page_2xx"] == 0 {
+			r.EngineError("vacuous: no tampered cursor was answered with an empty page")
+		}
+		// the import streams with the hash chain repaired: some must have been imported (2xx),
+		// otherwise the harness does not chain the hashes as the ledger does and every such
+		// stream stopped at the hash comparison like its unrepaired twin
+		if counts["kind:body-rechained"] == 0 || counts["rechained_accepted"] == 0 || counts["kind:import-cross"] == 0 {
+			r.EngineError(fmt.Sprintf("vacuous: import streams with repaired hash chain: %d served, %d imported; cross-document streams: %d", counts["kind:body-rechained"], counts["rechained_accepted"], counts["kind:import-cross"]))
+		}
+		// the streamed bulks: the line-level and document-level damage must have been served
+		for _, k := range []string{"text-stream", "json-stream"} {
+			if counts["kind:"+k] == 0 {
+				r.EngineError("vacuous: no " + k + " damage case was served")
+			}
+		}
 	}
 	outcomes, kinds := map[string]int64{}, map[string]int64{}
 	follows := map[string]any{}
@@ -1217,7 +1335,7 @@ func runC38(r *ev.Run) (ev.Coverage, []string) {
 	for _, code := range sortedKeys(scriptRejections) {
 		scriptTwice[code] = counts["repeat_of_script_rejection:"+code]
 	}
-	var requests int64 = evals - counts["not_constructible"]
+	var requests int64 = evals - counts["grid:batches"] - counts["not_constructible"] + counts["grid:requests"] - counts["grid:not_constructible"]
 	for _, k := range followKinds {
 		requests += counts["follow:"+k]
 	}
@@ -1236,30 +1354,47 @@ func runC38(r *ev.Run) (ev.Coverage, []string) {
 		"seeds":               len(p.ctx.seeds),
 		"routes":              routeCount(p.ctx.seeds),
 		"not_constructible":   counts["not_constructible"],
-		"inconclusive_sql_rejected_by_pgsim_parser":    counts["inconclusive"],
-		"definitely_invalid":                           counts["must"],
-		"definitely_invalid_rejected_4xx":              counts["must_rejected"],
-		"outcomes":                                     outcomes,
-		"cases_per_mutation_kind":                      kinds,
-		"exhaustive":                                   exhaustive,
-		"requests_judged":                              requests,
-		"follow_ups_served_by_the_same_process":        follows,
-		"repeats_on_unchanged_database":                counts["repeat_on_unchanged_state"],
-		"repeats_refused_twice":                        counts["repeat_rejected_twice"],
-		"repeats_of_requests_refused_by_script_parser": scriptTwice,
-		"inconclusive_follow_ups":                      counts["inconclusive_follow_up"],
-		"requests_that_would_wait_for_ever":            counts["blocked_for_ever"],
-		"numscript_cache_max_count":                    ServeNumscriptCacheMaxCount,
-		"numscript_cache_live":                         p.scriptCacheLive,
-		"samples":                                      samples.List(),
-		"stream_documents_mutated":                     map[bool]string{true: "all", false: "first of each log type"}[r.Thorough()],
-		"rule":                                         "one valid seed request per v1/v2 route (exporters/pipelines and bucket deletion excluded) on a clone of a booted+seeded pgsim database; mutations one at a time: every JSON pointer of the body (and of the query-string filter, and of the decoded cursor) x {null,true,0,-1,1.5,1e400,\"\",\"x\",[],{},2^70,300-char string} + delete; bad dates on date-valued fields/params; every query parameter of the seed, and the parameters the handler reads although the seed omits them (after, page_size, schemaVersion, expand, pit), x {-1,0,abc,1e9,empty,300 chars}; cursors x {garbage, base64 of invalid JSON/non-object/text, truncated}; malformed filters; named invalid addresses/assets/variable values; empty/truncated/non-JSON body; Content-Type; Idempotency-Key reused with a different input; path id/address. Named non-compiling scripts (unclosed, unknown statement, garbage, undeclared variable, account as amount) at every script.plain, under the machine and the interpreter runtime. HISTORY DIMENSION: one case = one simulated server process (one Go object graph over one database clone, system controller wired as `serve` does, compiled-script cache of 1024 entries on) that serves the mutated request, then the byte-identical request AGAIN, then — for the routes that carry a transaction — the same body through the other API version (v1<->v2, dryRun<->preview) and as the single element of an atomic v2 _bulk (or, for a _bulk, the element the mutation touched through POST /v2/{ledger}/transactions); each of these requests is judged by the same oracle against the database as it stood before it (the repeat keeps the definitely-invalid mark, the re-routed requests are in doubt), and when the first send left the database unchanged the repeat must get the same status class (same input, same state, same process). Oracle: no 5xx/panic/process crash, well-formed body for the status, 4xx leaves the dump unchanged (except non-atomic bulk, whose elements are independent by contract), definitely-invalid input (explicit table) is 4xx; in-doubt mutations may be 2xx or 4xx. Signatures are at root-cause level: panic/process-crash = call site; 5xx = input class + logged error class; state-changed-on-4xx = route; accepted/malformed = route + pointer class + replacement class (+ the follow-up kind when the request judged is a follow-up); verdict-changed-on-repeat = route + pointer class + replacement class + the two status classes",
+		"inconclusive_sql_rejected_by_pgsim_parser":             counts["inconclusive"],
+		"definitely_invalid":                                    counts["must"],
+		"definitely_invalid_rejected_4xx":                       counts["must_rejected"],
+		"outcomes":                                              outcomes,
+		"cases_per_mutation_kind":                               kinds,
+		"exhaustive":                                            exhaustive,
+		"filter_grid_cases":                                     counts["grid:requests"],
+		"filter_grid_cases_per_route":                           p.gridPer,
+		"filter_grid_batches":                                   counts["grid:batches"],
+		"filter_grid_batches_rerun_with_exact_dumps":            counts["grid:batches_rerun_exact"],
+		"filter_grid_batches_whose_process_died":                counts["grid:batches_crashed"],
+		"filter_grid_outcomes":                                  gridCounts(counts, "status:"),
+		"filter_grid_cases_per_key_class":                       gridCounts(counts, "loc:"),
+		"filter_grid_definitely_invalid":                        counts["grid:must"],
+		"filter_grid_definitely_invalid_rejected_4xx":           counts["grid:must_rejected"],
+		"filter_grid_inconclusive_sql_rejected_by_pgsim_parser": counts["grid:inconclusive"],
+		"filter_grid_tier":                                      map[bool]string{true: "full product on every route variant", false: "reduced value sets (see rule); full product at the thorough tier"}[r.Thorough()],
+		"import_streams_with_repaired_hash_chain":               map[string]int64{"served": counts["kind:body-rechained"], "imported_2xx": counts["rechained_accepted"], "refused_4xx": counts["rejected:body-rechained"]},
+		"import_cross_document_streams":                         map[string]int64{"served": counts["kind:import-cross"], "refused_4xx": counts["rejected:import-cross"]},
+		"cursor_empty_page_cases":                               counts["kind:cursor-empty"],
+		"cursor_empty_pages_answered_2xx":                       counts["empty_page_2xx"],
+		"streamed_bulk_cases":                                   map[string]int64{"text-stream": counts["kind:text-stream"], "json-stream": counts["kind:json-stream"]},
+		"requests_judged":                                       requests,
+		"follow_ups_served_by_the_same_process":                 follows,
+		"repeats_on_unchanged_database":                         counts["repeat_on_unchanged_state"],
+		"repeats_refused_twice":                                 counts["repeat_rejected_twice"],
+		"repeats_of_requests_refused_by_script_parser":          scriptTwice,
+		"inconclusive_follow_ups":                               counts["inconclusive_follow_up"],
+		"requests_that_would_wait_for_ever":                     counts["blocked_for_ever"],
+		"numscript_cache_max_count":                             ServeNumscriptCacheMaxCount,
+		"numscript_cache_live":                                  p.scriptCacheLive,
+		"samples":                                               samples.List(),
+		"stream_documents_mutated":                              map[bool]string{true: "all", false: "first of each log type"}[r.Thorough()],
+		"rule":                                                  "one valid seed request per v1/v2 route (exporters/pipelines and bucket deletion excluded) on a clone of a booted+seeded pgsim database; mutations one at a time: every JSON pointer of the body (and of the query-string filter, and of the decoded cursor) x {null,true,0,-1,1.5,1e400,\"\",\"x\",[],{},2^70,300-char string} + delete; bad dates on date-valued fields/params; every query parameter of the seed, and the parameters the handler reads although the seed omits them (after, page_size, schemaVersion, expand, pit), x {-1,0,abc,1e9,empty,300 chars}; cursors x {garbage, base64 of invalid JSON/non-object/text, truncated}; malformed filters; named invalid addresses/assets/variable values; empty/truncated/non-JSON body; Content-Type; Idempotency-Key reused with a different input; path id/address. Named non-compiling scripts (unclosed, unknown statement, garbage, undeclared variable, account as amount) at every script.plain, under the machine and the interpreter runtime. HISTORY DIMENSION: one case = one simulated server process (one Go object graph over one database clone, system controller wired as `serve` does, compiled-script cache of 1024 entries on) that serves the mutated request, then the byte-identical request AGAIN, then — for the routes that carry a transaction — the same body through the other API version (v1<->v2, dryRun<->preview) and as the single element of an atomic v2 _bulk (or, for a _bulk, the element the mutation touched through POST /v2/{ledger}/transactions); each of these requests is judged by the same oracle against the database as it stood before it (the repeat keeps the definitely-invalid mark, the re-routed requests are in doubt), and when the first send left the database unchanged the repeat must get the same status class (same input, same state, same process). FILTER GRID (c38grid.go): on every v2 route that takes a filter (accounts GET/HEAD, transactions GET/HEAD, logs, volumes, aggregate/balances, ledgers list, schemas list; with and without a point in time) the product {$match,$lt,$lte,$gt,$gte,$like,$exists,$in} x {every field and alias of the resource's compiled Schema(), its forms key[x] key[ key[] key], the fields of the other resources, unknown keys, [x], empty key} x 16 values {string, address, partial address, date, 5, 2^64+1, -1, true, [\"a\"], [], 1.5, null, [1], [null], {}, {\"a\":1}}, plus each leaf on an own key wrapped once in $not/$and/$or; quick tier: full product on the own keys of the base variant of each route, 2 values on foreign/unknown keys, 3 values on the HEAD/point-in-time variants; served in batches of 64 by one process, each request judged on its own (a key that names no field of the resource is definitely invalid). STREAMED BULKS (c38stream.go): a valid multi-element seed for each of application/vnd.formance.ledger.api.v2.bulk+script-stream and +json-stream, atomic and not; text stream: 21 header variants at every element position with and without a script, empty/blank script, missing //end, stray //end, text instead of an element, NUL, 64 KiB lines, CRLF/CR, BOM, blank lines, 120 elements; JSON stream: the JSON-pointer menu on the documents, framing damage (concatenated, comma-separated, array-wrapped, CRLF, BOM, NUL), truncated/split/duplicated documents, non-object documents, unknown/missing actions and payloads; spellings of the content type; all in doubt (a streamed bulk reports a stream it cannot decode inside a 200). CURSORS ON EMPTY PAGES: the decoded next cursor of every paginated seed with pageSize in {0,1,2^31,2^63-1,2^63,2^64-1,2^64,-1} x a position or filter that leaves nothing to return (offset beyond the end, pagination id/bottom beyond the data, reverse, filters.qb selecting nothing) x order as is/flipped, without the pageSize parameter (which would override the cursor's). IMPORT WITH THE HASH CHAIN REPAIRED (c38import.go): every body mutation of the import seed that leaves the documents decodable is ALSO sent with its hashes recomputed in stream order (Log.ComputeHash), so that it gets past the hash comparison; cross-document streams, well hashed: a later document takes a value of an earlier one of its type (every leaf: reference, transaction id, log id, ...), the same new reference / idempotency key / transaction id / log id in two documents, documents swapped, twice, missing, the whole stream twice. Oracle: no 5xx/panic/process crash, well-formed body for the status, 4xx leaves the dump unchanged (except non-atomic bulk, whose elements are independent by contract), definitely-invalid input (explicit table) is 4xx; in-doubt mutations may be 2xx or 4xx. Signatures are at root-cause level: panic/process-crash = call site; 5xx = input class + logged error class; state-changed-on-4xx = route; accepted/malformed = route + pointer class + replacement class (+ the follow-up kind when the request judged is a follow-up); verdict-changed-on-repeat = route + pointer class + replacement class + the two status classes",
 	}
 	return cov, assumptions
 }
 
-// the whole quick space (11.7k cases, 26k requests judged: every case is a short history on
-// one process) takes ~65-80 s on a 16-core machine at load 30; the budget leaves room for more
+// the whole quick space (15.2k cases, 70k requests judged: every case is a short history on
+// one process, the filter grid travels in batches) takes ~170 s on a 16-core machine at load
+// 80-100 (the 11.7k cases it had before the grid, the streams and the empty pages: 120 s)
 const c38Quick, c38Thorough = 300 * time.Second, 15 * time.Minute
 
 func routeCount(seeds []Seed) int {
